@@ -44,10 +44,13 @@ QUICK = [
     _c('in_portfolio_not_last', 'two_node', dict(T=2)),
     _c('two_nodes', 'two_node', dict(T=2, two_node_storage=True)),
     _c('no_simult', 'contract_storage', dict(T=2, storage_kw=dict(no_simult_in_out=True)), 'A'),
+    _c('no_simult_two_nodes_lossless_costfree', 'two_node', dict(T=2, two_node_storage=True, eff_s=None, storage_kw=dict(no_simult_in_out=True, costs=False)), 'A'),
     _c('max_duration', 'contract_storage', dict(T=4, eff=None, storage_kw=dict(max_store_duration=2, costs=False)), 'A', dict(msd=2)),
     _c('blocks', 'contract_storage', dict(T=4, eff=None, storage_kw=dict(block_size='2h', costs=False)), 'A', dict(blocks='2h')),
+    _c('blocks_window_offset_not_a_multiple', 'contract_storage', dict(T=5, eff=None, win_s=(1, 5), storage_kw=dict(block_size='2h', costs=False)), 'A', dict(blocks='2h')),
     # storages whose variables act in several steps (own coarser frequency, periodicity): reported series vs physics
     _c('coarse_storage_q', 'coarse', dict(T=4, kind='storage', eff=0.75, ec=True), 'A', dict(name='co', coarse=True)),
+    _c('coarse_storage_overhanging_start', 'coarse', dict(T=4, kind='storage', eff=0.75, ec=True, win=(-1, 5)), 'A', dict(name='co', coarse=True)),
     _c('periodic_storage', 'periodic', dict(T=4, kind='storage', eff=0.75, ec=True), 'A', dict(name='pe')),
 ] + [MSD_IRREGULAR[0]]
 THOROUGH = QUICK + [
@@ -231,7 +234,7 @@ def run_case(case_id, tier, seed, shape, kw, level, opts):
                       info=dict(info0, kind='rep_charge', t=t))
             rec.prove(P + '/rep_discharge/%d' % t, assume, zl(iv[name + '_discharge'].values[t]) == -discharge[t], form='Q1',
                       info=dict(info0, kind='rep_discharge', t=t))
-        if getattr(st, 'no_simult_in_out', False):
+        if lift.ctor_arg(st, 'no_simult_in_out', False):
             for t in active:
                 rec.prove(P + '/no_simult/%d' % t, assume, z3.Not(z3.And(charge[t] > 0, discharge[t] > 0)), form='Q1',
                           info=dict(info0, kind='no_simult', t=t))
